@@ -114,6 +114,17 @@ def gen(rng, n_manual, n_auto):
     for _ in range(n_auto):
         c = ctl.gen_scenario(rng, max_lines=5, ctrl="main")
         c["kind"] = "auto"
+        if rng.random() < 0.4:       # partial instrumentation: lines without sensor, plain disconnectors
+            from . import c06
+            c["spec"]["ctrl"]["nodev"] = c06.missing_devices(rng, c["spec"])
+            if c["spec"].get("mg") and rng.random() < 0.7:
+                # a fault on a microgrid line without sensor, long enough to span the manual sectioning time
+                ln = f"ML{rng.randrange(c['spec']['mg'].get('n', 2))}"
+                if f"S{ln}" not in c["spec"]["ctrl"]["nodev"]:
+                    c["spec"]["ctrl"]["nodev"].append(f"S{ln}")
+                c["faults"] = {str(rng.randint(1, 4)): [[ln, str(rng.choice([F(3), F(4)]))]]}
+                cases.append(c)
+                continue
         if rng.random() < 0.6:
             # ICT network in which some sensors / intelligent switches cannot be reached (=> a manual sectioning time runs with
             # the breaker open), and a second fault in another place while that time is running or just when it runs out
